@@ -30,10 +30,11 @@ import (
 func init() { register("C02", runC02) }
 
 type c02Case struct {
-	Bytes  string   `json:"bytes"` // hex of the input of profile.ParseData
-	Stream string   `json:"stream,omitempty"`
-	CLI    bool     `json:"cli,omitempty"`  // also run the pprof binary with every report command
-	Cmds   []string `json:"cmds,omitempty"` // or with exactly these commands (flags separated by \x1f, {file} = the input)
+	Bytes   string   `json:"bytes"` // hex of the input of profile.ParseData
+	Stream  string   `json:"stream,omitempty"`
+	CLI     bool     `json:"cli,omitempty"`     // also run the pprof binary with every report command
+	Profile string   `json:"profile,omitempty"` // canonical form of a VALID profile: its written form is the input (Bytes empty)
+	Cmds    []string `json:"cmds,omitempty"`    // or with exactly these commands (flags separated by \x1f, {file} = the input)
 }
 
 const (
@@ -244,6 +245,9 @@ func c02observe(b []byte, reports, full bool, mult int, retried bool) *c02Outcom
 		}
 		if pn := c02Safely(func() { _ = p.String() }); pn != "" {
 			fail("C02/string/panic", "Profile.String of an accepted profile panics: "+pn)
+		}
+		if len(b) > 128<<10 { // very large boundary inputs: written / copied / compacted only
+			return
 		}
 		// everything the driver does to a freshly parsed profile before a report
 		if sg, w := c02Pipeline(o.pb); sg != "" {
@@ -606,4 +610,62 @@ func c02ErrKind(e string) string {
 		}
 	}
 	return "other"
+}
+
+// c02CheckGenerated checks a VALID generated profile: what WriteUncompressed emits for it must be
+// accepted by ParseData and pass the whole oracle ("written" clause, encoder side); and the
+// encoding of the same profile by the Lean model's encoder — bytes that do not depend on the Go
+// encoder — is an input the parser accepts, whose result must Write, Copy, Compact, re-parse
+// ("a profile returned by the parser can always be written, copied").
+func c02CheckGenerated(c *Ctx, p *profile.Profile, stream string) *c02Outcome {
+	canon := Canon(p)
+	raw, pn := c02WriteU(p)
+	rejected := func(q *profile.Profile) (bool, string) {
+		b, pn := c02WriteU(q)
+		if pn != "" {
+			return true, "WriteUncompressed panics: " + pn
+		}
+		var err error
+		if pn := c02Safely(func() { _, err = profile.ParseData(b) }); pn != "" {
+			return false, "" // a parser panic is reported by the byte-level path
+		}
+		if err != nil {
+			return true, "ParseData rejects the written bytes: " + err.Error()
+		}
+		return false, ""
+	}
+	if bad, why := rejected(p); bad {
+		// shrink the profile: drop samples, then table entries, while the failure persists
+		q, _ := ParseCanon(canon)
+		for i := 0; q != nil && i < len(q.Sample); {
+			cand, _ := ParseCanon(Canon(q))
+			cand.Sample = append(cand.Sample[:i:i], cand.Sample[i+1:]...)
+			if b, _ := rejected(cand); b {
+				q = cand
+			} else {
+				i++
+			}
+		}
+		if q == nil {
+			q = p
+		}
+		c.Violation("C02/write/generated-valid-rejected", "the written form of a valid profile ("+stream+") is not accepted back: "+c02Trunc(why), c02Case{Profile: Canon(q), Stream: stream})
+	}
+	_ = pn
+	o := &c02Outcome{sig: "C02/write/generated-valid-rejected"}
+	if bad, _ := rejected(p); !bad {
+		o = c02Check(c, raw, stream, false)
+	}
+	// the same profile encoded by the model: an accepted INPUT that must survive Write and Copy
+	if c.Drv != nil && len(canon) < 400<<10 {
+		if ms := c.Drv.Ask("codec.serialize " + canon); strings.HasPrefix(ms, "ok x") {
+			if mb, err := hex.DecodeString(ms[4:]); err == nil && !bytes.Equal(mb, raw) {
+				c.Res.Hit("z-model-bytes:differ-from-go")
+				c02Check(c, mb, stream+":model-bytes", false)
+			} else if err == nil {
+				c.Res.Hit("z-model-bytes:identical")
+			}
+		}
+	}
+	return o
 }
